@@ -12,6 +12,15 @@ package main
 //   - whether the decoder and the encoder are made anew on the new connection
 //     (`s.in.d = xml.NewDecoder(s.conn)`, `s.out.e = xml.NewEncoder(s.conn)`),
 //     which is what drops clear text buffered behind <proceed/>.
+//   - which stream infos are reset, keeping only To and From, by the
+//     `if rw != nil { ... }` statement that PRECEDES the call of the negotiator
+//     (`s.in.Info = stream.Info{To: s.in.Info.To, From: s.in.Info.From}` and the
+//     same for s.out.Info): the model's renew_info;
+//   - starttls.go: the variables captured by the Negotiate closure of StartTLS
+//     (parameters and locals of StartTLS) and those of them that Negotiate
+//     writes (assignment, op-assignment, ++/--, through any selector, index or
+//     dereference).  The model threads the captured state through sessions and
+//     never writes it; the proof side demands that the list of writes is empty.
 // Control flow is modelled by hand in coq/C02/Model.v.
 
 import (
@@ -64,7 +73,7 @@ func (g *gen) c02Restart() {
 		return
 	}
 	// the `if rw != nil` that follows the call of the negotiator
-	var block *ast.BlockStmt
+	var block, pre *ast.BlockStmt
 	called := false
 	for _, st := range loop.Body.List {
 		if as, is := st.(*ast.AssignStmt); is && len(as.Rhs) == 1 {
@@ -73,8 +82,13 @@ func (g *gen) c02Restart() {
 				continue
 			}
 		}
-		if is, ok := st.(*ast.IfStmt); ok && called && block == nil && is.Init == nil && c02IsRwNotNil(is.Cond) {
-			block = is.Body
+		if is, ok := st.(*ast.IfStmt); ok && is.Init == nil && c02IsRwNotNil(is.Cond) {
+			if called && block == nil {
+				block = is.Body
+			}
+			if !called && pre == nil {
+				pre = is.Body
+			}
 		}
 	}
 	if block == nil {
@@ -137,4 +151,190 @@ func (g *gen) c02Restart() {
 	}
 	g.p("Definition restart_renews_decoder : bool := %s. (* s.in.d = xml.NewDecoder(s.conn) *)\n", b(decoder))
 	g.p("Definition restart_renews_encoder : bool := %s. (* s.out.e = xml.NewEncoder(s.conn) *)\n", b(encoder))
+
+	// the info resets before the negotiator call: X = stream.Info{To: X.To, From: X.From}
+	var resets []string
+	if pre != nil {
+		for _, st := range pre.List {
+			as, is := st.(*ast.AssignStmt)
+			if !is || as.Tok != token.ASSIGN || len(as.Lhs) != 1 || len(as.Rhs) != 1 {
+				continue
+			}
+			lhs := c02Sel(as.Lhs[0])
+			cl, is := as.Rhs[0].(*ast.CompositeLit)
+			if !is || c02Sel(cl.Type) != "stream.Info" || len(cl.Elts) != 2 {
+				continue
+			}
+			ok := true
+			kept := map[string]bool{}
+			for _, e := range cl.Elts {
+				kv, is := e.(*ast.KeyValueExpr)
+				if !is {
+					ok = false
+					break
+				}
+				k := c02Sel(kv.Key)
+				if c02Sel(kv.Value) != lhs+"."+k {
+					ok = false
+				}
+				kept[k] = true
+			}
+			if ok && kept["To"] && kept["From"] {
+				resets = append(resets, lhs)
+			}
+		}
+	}
+	g.p("(* stream infos reset to {To, From} before the negotiator is called again with a new connection *)\n")
+	g.p("Definition restart_resets_info : list bytes := [")
+	for i, r := range resets {
+		if i > 0 {
+			g.p("; ")
+		}
+		g.p("hex \"%s\" (* %s *)", hexOf([]byte(r)), r)
+	}
+	g.p("].\n")
+
+	g.c02Captured()
+}
+
+// c02Root returns the identifier at the root of an assignable expression.
+func c02Root(e ast.Expr) *ast.Ident {
+	for {
+		switch x := e.(type) {
+		case *ast.Ident:
+			return x
+		case *ast.SelectorExpr:
+			e = x.X
+		case *ast.IndexExpr:
+			e = x.X
+		case *ast.StarExpr:
+			e = x.X
+		case *ast.ParenExpr:
+			e = x.X
+		default:
+			return nil
+		}
+	}
+}
+
+func (g *gen) c02Captured() {
+	f := g.parse("starttls.go")
+	if f == nil {
+		return
+	}
+	fd := funcDecl(f, "StartTLS")
+	if fd == nil || fd.Body == nil {
+		g.errs = append(g.errs, "starttls.go: func StartTLS not found")
+		return
+	}
+	// the Negotiate function literal
+	var neg *ast.FuncLit
+	ast.Inspect(fd.Body, func(n ast.Node) bool {
+		kv, is := n.(*ast.KeyValueExpr)
+		if !is {
+			return true
+		}
+		if k, is := kv.Key.(*ast.Ident); is && k.Name == "Negotiate" {
+			if fl, is := kv.Value.(*ast.FuncLit); is {
+				neg = fl
+			}
+		}
+		return true
+	})
+	if neg == nil {
+		g.errs = append(g.errs, "starttls.go: Negotiate function literal of StartTLS not found")
+		return
+	}
+	// variables of StartTLS itself: parameters and everything declared in its
+	// body outside the function literals (go/parser resolves identifiers to
+	// their declaring object within the file)
+	outer := map[*ast.Object]string{}
+	var order []string
+	add := func(id *ast.Ident) {
+		if id != nil && id.Obj != nil && id.Name != "_" {
+			if _, seen := outer[id.Obj]; !seen {
+				outer[id.Obj] = id.Name
+				order = append(order, id.Name)
+			}
+		}
+	}
+	if fd.Type.Params != nil {
+		for _, fl := range fd.Type.Params.List {
+			for _, id := range fl.Names {
+				add(id)
+			}
+		}
+	}
+	var walk func(n ast.Node) bool
+	walk = func(n ast.Node) bool {
+		switch x := n.(type) {
+		case *ast.FuncLit:
+			return false
+		case *ast.ValueSpec:
+			for _, id := range x.Names {
+				add(id)
+			}
+		case *ast.AssignStmt:
+			if x.Tok == token.DEFINE {
+				for _, l := range x.Lhs {
+					if id, is := l.(*ast.Ident); is {
+						add(id)
+					}
+				}
+			}
+		}
+		return true
+	}
+	ast.Inspect(fd.Body, walk)
+	// which of them does Negotiate mention, which does it write
+	used := map[string]bool{}
+	var writes []string
+	ast.Inspect(neg.Body, func(n ast.Node) bool {
+		switch x := n.(type) {
+		case *ast.Ident:
+			if name, is := outer[x.Obj]; is && x.Obj != nil {
+				used[name] = true
+			}
+		case *ast.AssignStmt:
+			if x.Tok != token.DEFINE {
+				for _, l := range x.Lhs {
+					if id := c02Root(l); id != nil && id.Obj != nil {
+						if name, is := outer[id.Obj]; is {
+							writes = append(writes, name)
+						}
+					}
+				}
+			}
+		case *ast.IncDecStmt:
+			if id := c02Root(x.X); id != nil && id.Obj != nil {
+				if name, is := outer[id.Obj]; is {
+					writes = append(writes, name)
+				}
+			}
+		}
+		return true
+	})
+	g.p("\n(* ---- starttls.go StartTLS: state captured by the Negotiate closure ---- *)\n")
+	g.p("Definition starttls_captured : list bytes := [")
+	first := true
+	for _, name := range order {
+		if !used[name] {
+			continue
+		}
+		if !first {
+			g.p("; ")
+		}
+		first = false
+		g.p("hex \"%s\" (* %s *)", hexOf([]byte(name)), name)
+	}
+	g.p("].\n")
+	g.p("(* captured variables that Negotiate assigns to (directly or through a selector, index or dereference) *)\n")
+	g.p("Definition starttls_negotiate_writes : list bytes := [")
+	for i, name := range writes {
+		if i > 0 {
+			g.p("; ")
+		}
+		g.p("hex \"%s\" (* %s *)", hexOf([]byte(name)), name)
+	}
+	g.p("].\n")
 }
